@@ -528,6 +528,16 @@ def c12_placeholders_concrete(ti: int, k0: int, k1: int, c: int) -> bool:
     return check_placeholders(ti, k0, k1, c)
 
 
+def c12_strict_values_inside_expansion() -> bool:
+    """Witness form for known finding c12-value-transformations-skip-expansions: a string transformation also
+    reaches the values that an earlier expansion (windash) produced."""
+    doc = {"title": "t", "logsource": {"category": "cat"}, "detection": {"d0": {"fA|windash|contains": "-Enc", "fB|contains": "-Enc"}, "condition": "d0"}}
+    b = make_backend(0)
+    b.processing_pipeline = ProcessingPipeline.from_dict({"name": "p", "priority": 10, "transformations": [{"type": "case", "method": "lower"}]})
+    q = b.convert_rule(SigmaRule.from_dict(doc))[0]
+    return "Enc" not in q
+
+
 def c12_strict_identity_number() -> bool:
     """Witness of known finding c12-replace-string-number-to-string (strict identity oracle)."""
     doc = build_doc(7, 0, 0)
